@@ -28,6 +28,7 @@ type Obligation struct {
 	Wit    []witness
 	Pos    string
 	CexExtra string // extra constraint used only when searching a counterexample
+	QueryInst string // the query with the context's integer quantifiers instantiated at the function's index terms
 }
 
 type witness struct{ Name, Term, Sort string }
@@ -579,6 +580,17 @@ func (g *Gen) oblige(name, kind string, tags []string, guard, formula, desc stri
 		sb.WriteString("))\n")
 	}
 	o.Query = sb.String()
+	if goal == formula && len(g.instIdx) > 0 {
+		// fallback query: same obligation, plus instances of the context's integer-quantified
+		// assumptions at the index terms the function uses (tried only if the plain query fails)
+		insts := g.instantiateContext(append([]string{"0"}, g.instIdx...))
+		if len(insts) > 0 {
+			mark := "; obligation " + name + ":"
+			if k := strings.Index(o.Query, mark); k > 0 {
+				o.QueryInst = o.Query[:k] + strings.Join(insts, "\n") + "\n" + o.Query[k:]
+			}
+		}
+	}
 	g.obls = append(g.obls, o)
 	// assert-then-assume, but only for obligations that the current property check
 	// reports: a failing obligation of another property must not mask a failure here.
